@@ -280,6 +280,31 @@ class NameModel(explorer.Model):
                 bad('find_metaclass', 'find_metaclass(%r) is another object' % ks)
             if w.a not in list(w.m.select_many(ks)) or w.m.select_any(ks) is not w.a:
                 bad('select', 'select_many(%r) does not return the instance' % ks)
+        # a class name that is already defined is rejected under every spelling
+        for ks in self.kinds + ['AB ']:
+            if ks.strip() != ks:
+                continue
+            ctx.count('reads')
+            try:
+                w.m.define_class(ks, [('Zz', 'integer')])
+                redefined = True
+            except xtuml.MetaException:
+                redefined = False
+            if redefined or w.m.find_metaclass('Ab') is not mc:
+                bad('define_class', 'define_class(%r) replaced the existing class Ab' % ks, 'MetaModelException', 'accepted')
+                break
+        # equality filters with null-ish values: every spelling of the key gives the same answer
+        if DELETED not in w.ref.values():
+            for u in ('ID', 'R_A'):
+                for v in (0, None):
+                    answers = []
+                    for s in self.sp[u]:
+                        ctx.count('reads')
+                        for q in (xtuml.where_eq(**{s: v}), {s: v}):
+                            answers.append(w.a in list(w.m.select_many('ab', q)))
+                    if len(set(answers)) != 1:
+                        bad('where_eq:null', 'where_eq(<spelling of %s>=%r) matches under some spellings only: %s' %
+                            (u, v, list(zip(self.sp[u], answers[::2]))), 'the same answer under every spelling', answers)
         for u in ('ID', 'XY', 'R_A'):
             for s in self.sp[u]:
                 ctx.count('reads')
